@@ -65,6 +65,7 @@ Expected(L) == LET S == SetToSeq(Cand(L)) IN
 Export == JsonSerialize(IOEnv.VF_OUT,
             [names |-> NameSeq,
              cases |-> [k \in 1..Len(CaseSeq) |-> LET x == CaseSeq[k] IN
-                          [L |-> x, norm |-> [i \in DOMAIN x |-> Normalize(x[i].pat)], exp |-> Expected(x)]]])
+                          [L |-> x, norm |-> [i \in DOMAIN x |-> NORM[x[i].pat]], kr |-> [i \in DOMAIN x |-> KR[x[i].pat]],
+                           exp |-> Expected(x)]]])
 ASSUME IF "VF_OUT" \in DOMAIN IOEnv THEN Export ELSE TRUE
 =============================================================================
